@@ -91,3 +91,12 @@ func (s *dispatchState) YieldToScheduled() {
 func (s *dispatchState) reset() {
 	s.v.Store(dispatchIdle)
 }
+
+// resetUnlessProcessing moves any state other than Processing to Idle in
+// one atomic step and reports whether it did. Called by the actor restart
+// path: a false result means a worker owns the actor (or took it between
+// the read and the swap) and the caller must wait and try again.
+func (s *dispatchState) resetUnlessProcessing() bool {
+	cur := s.v.Load()
+	return cur != dispatchProcessing && s.v.CompareAndSwap(cur, dispatchIdle)
+}
